@@ -986,7 +986,16 @@ free_task(_task_t t)
 		free(deconst(t->dflt_cred.sh));
 	}
 	free_echs_task(t->t);
+	t->t = NULL;
+	t->dflt_cred = (ncred_t){0};
 
+	if (UNLIKELY(t->nsim)) {
+		/* there's still runs out there whose watchers point to this
+		 * very object, chld_cb() will hand it back when the last
+		 * one of them has finished */
+		t->w.reschedule_cb = NULL;
+		return;
+	}
 	t->next = free_tasks;
 	free_tasks = t;
 	nfree_tasks++;
@@ -2204,8 +2213,19 @@ chld_cb(EV_P_ ev_child *c, int UNUSED(revents))
 	c->rpid = c->pid = 0;
 	t->nsim--;
 
-	if (UNLIKELY(t->w.reschedule_cb == NULL)) {
-		/* we promised taskB_cb to kill this guy */
+	if (UNLIKELY(t->t == NULL)) {
+		/* the task is long gone (cancelled or completed), we're just
+		 * here to return the object when nobody refers to it anymore */
+		if (!t->nsim) {
+			t->next = free_tasks;
+			free_tasks = t;
+			nfree_tasks++;
+		}
+	} else if (UNLIKELY(t->w.reschedule_cb == NULL && !t->nsim &&
+			    !ev_is_pending(&t->w))) {
+		/* we promised taskB_cb to kill this guy, but only the last
+		 * run to finish may do so, and not before the last run
+		 * has actually been started */
 		unsched(EV_A_ &t->w, 0);
 	}
 	free_chld(c);
@@ -2250,9 +2270,10 @@ task_cb(EV_P_ ev_periodic *w, int UNUSED(revents))
 	}
 
 	/* prepare for rescheduling */
-	if (UNLIKELY(w->reschedule_cb == NULL)) {
-		/* the child watcher will reap this task */
-		;
+	if (UNLIKELY(w->reschedule_cb == NULL && !t->nsim)) {
+		/* that was the last run and there is no child watcher
+		 * that could reap this task */
+		unsched(EV_A_ w, 0);
 	}
 	return;
 }
